@@ -1,9 +1,11 @@
 import Driver.Codec
 import UgoVerif.Model.Ops
+import UgoVerif.Spec.OperatorsDoc
+import UgoVerif.Gen.Unary
 namespace Driver
 open UgoVerif UgoVerif.Go UgoVerif.Model
 
-/-- `ops <tok> <a> <b> <hex of b.String()>` -> `eq=.. ne=.. bin=<res>` -/
+/-- `ops <tok> <a> <b> <hex of b.String()>` -> `eq=.. ne=.. bin=<res> doc=<docs/operators.md>` -/
 def handleOps (args : List String) : String :=
   match args with
   | [tokS, aS, bS, strB] =>
@@ -12,8 +14,20 @@ def handleOps (args : List String) : String :=
       let S : ObjOps := { toStr := fun _ => sb }
       let eq := valEqual nativeFloat a b
       let ne := match opNotEqual nativeFloat a b with | .bool r => r | _ => false
-      s!"eq={if eq then 1 else 0} ne={if ne then 1 else 0} bin={showRes (binaryOp nativeFloat S tok a b)}"
+      let doc := Spec.OperatorsDoc.showDoc showVal (Spec.OperatorsDoc.docArith nativeFloat tok a b)
+      s!"eq={if eq then 1 else 0} ne={if ne then 1 else 0} bin={showRes (binaryOp nativeFloat S tok a b)} doc={doc}"
     | _, _, _, _ => "bad-op"
+  | _ => "bad-op"
+
+/-- `unop <tok> <a> <falsy 0|1>` -> `un=<xOpUnary> doc=<docs/operators.md>` -/
+def handleUnop (args : List String) : String :=
+  match args with
+  | [tokS, aS, fS] =>
+    match tokOfName tokS, parseValStr aS with
+    | some tok, some a =>
+      let doc := Spec.OperatorsDoc.showDoc showVal (Spec.OperatorsDoc.docUnary nativeFloat tok a)
+      s!"un={showRes (Gen.xOpUnary nativeFloat (fun _ => fS == "1") tok a)} doc={doc}"
+    | _, _ => "bad-op"
   | _ => "bad-op"
 
 end Driver
